@@ -262,7 +262,12 @@ where
                 // resume incomplete search after previous read_record_set(), or
                 // after a seek() call.
                 if !try_opt!(self.resume_incomplete_search(pos, is_new)) {
-                    return None;
+                    // end of input reached
+                    if rset.buf_positions.is_empty() {
+                        return None;
+                    }
+                    // return the records already found (less than n_records)
+                    break;
                 }
             } else {
                 // search the next complete record after `next()`, or in
